@@ -65,6 +65,7 @@ type gateCtl struct {
 	done     chan struct{}
 	observed []int
 	inOrder  bool
+	batches  [][]int // (start, end) of every worker as passed to the gate
 }
 
 func newGateCtl(mode string) *gateCtl {
@@ -74,6 +75,7 @@ func (g *gateCtl) gate(start, end int) {
 	ch := make(chan struct{})
 	g.mu.Lock()
 	g.waiting[start] = ch
+	g.batches = append(g.batches, []int{start, end})
 	g.mu.Unlock()
 	select {
 	case <-ch:
@@ -322,6 +324,8 @@ func (d *driver) runMultiproof(w emitter, pid int, pr *proofProg) {
 		e["arrival_forced"] = pr.Arrival
 		e["arrival_observed"] = ctl.observed
 		e["arrival_ok"] = ctl.inOrder
+		sort.Slice(ctl.batches, func(i, j int) bool { return ctl.batches[i][0] < ctl.batches[j][0] })
+		e["batches"] = ctl.batches
 	}
 	e["err"] = err != nil
 	e["cs_after"] = elemList(Cs)
